@@ -303,6 +303,22 @@ def external_conflicts(path, seedstr):
                         extra.append(BasePair(Residue(r1.label, r1.auth), p.nt2, p.lw, p.saenger))
                     elif (p.nt2.label, p.nt2.auth) == (r0.label, r0.auth):
                         extra.append(BasePair(p.nt1, Residue(r1.label, r1.auth), p.lw, p.saenger))
+    # a second partner at the same distance on the other side (i - d and i + d, same base): rankings by sequence
+    # separation tie exactly
+    order = list(s.residues)
+    mirrored = 0
+    for p in canon:
+        k1, k2 = pos.get((p.nt1.label, p.nt1.auth)), pos.get((p.nt2.label, p.nt2.auth))
+        if k1 is None or k2 is None or mirrored >= 3:
+            continue
+        km = 2 * k1 - k2
+        if 0 <= km < len(order) and km not in (k1, k2):
+            m, r2 = order[km], order[k2]
+            if m.is_nucleotide and m.one_letter_name.upper() == r2.one_letter_name.upper() and rng.random() < 0.5:
+                from rnapolis.common import Residue
+
+                extra.append(BasePair(p.nt1, Residue(m.label, m.auth), p.lw, p.saenger))
+                mirrored += 1
     # chains whose names differ by letter case only: a nucleotide paired with a residue of chain A is also listed as
     # paired with the equally numbered residue of chain a (and the other way round)
     bycase = {}
